@@ -118,6 +118,7 @@ def main(tier, seed, budget):
                     rep.harness_error('event digests depend on PYTHONHASHSEED (%d of %d)' % (mism, len(st_jobs)))
             # ---- reference worlds: P=1, canonical schedule ----
             refs = {}
+            ref_steps = {}
             ref_jobs = [dict(fn=JOB, args=dict(runname=c['runname'], compl=c['compl'], basis=c['basis'], P=1, seed=0,
                                                policy={'kind': 'lowest'}, run_seed=0, nfun=c['nfun'])) for c in cfgs]
             for job, out in pool.imap(ref_jobs, timeout=900):
@@ -133,6 +134,7 @@ def main(tier, seed, budget):
                     stats['ref_failed'].append([a['runname'], a['compl'], sorted(ss)])
                     continue
                 refs[cfg_key(a)] = r['hashes']
+                ref_steps[cfg_key(a)] = r['steps']
                 for c in cfgs:
                     if (c['runname'], c['compl']) == cfg_key(a):
                         c['unmerged'] = r.get('n_unmerged') or 0
@@ -151,6 +153,8 @@ def main(tier, seed, budget):
                     idx += 1
                     a['ref_hashes'] = {f + '_%d.txt' % a['compl']: refs[cfg_key(a)].get(f + '_%d.txt' % a['compl']) for f in GEN_FILES}
                     a['hashseed'] = hs
+                    # bounded liveness: a world may use at most 40x the events of the sequential run per rank
+                    a['max_steps'] = 40 * ref_steps[cfg_key(a)] * a['P'] + 5000
                     if a.get('hs_offsets'):
                         a['rank_hashseeds'] = [hs + o for o in a['hs_offsets']]
                     yield dict(fn=JOB, args=a, timeout=900)
